@@ -279,5 +279,50 @@ def runCase (payload : String) : String :=
     | _, _, _, _ => "bad-payload"
   | _ => "bad-payload"
 
-def run (_args : List String) : IO Unit := lineLoop runCase
+/-! ### search: the documented grammar's prints of all operator pairs (independent of the table) -/
+
+def binText : BinOp → String
+  | .geq => ">=" | .leq => "<=" | .neq => "!=" | .eq => "==" | .gt => ">" | .lt => "<"
+  | .plus => "+" | .minus => "-" | .times => "*" | .div => "/" | .divint => "//" | .modint => "%"
+  | .and => "and" | .or => "or" | .like => "like" | .isin => "in" | .hasprefix => "hasprefix"
+  | .hassuffix => "hassuffix" | .notin => "notin" | .assign => ":="
+
+def preText : PreOp → String
+  | .neg => "-" | .pos => "+" | .not => "not"
+
+def tkText : TK → String
+  | .atom (.num t _) => String.fromUTF8! (ByteArray.mk (t.map (·.toUInt8)).toArray)
+  | .atom _ => "x"
+  | .lp => "(" | .rp => ")" | .lb => "[" | .rb => "]" | .comma => "," | .eof => ""
+  | .not _ => "not"
+  | .op o _ => binText o
+  | .other _ => "?"
+
+def numAtom (n : Nat) : Expr := .atom (.num (strBytes (toString n)) 0)
+
+def bin' (o : BinOp) (l r : Expr) : Expr := .bin o (strBytes (binText o)) l r
+def pre' (p : PreOp) (x : Expr) : Expr := .pre p (strBytes (preText p)) x
+
+/-- trees over all operator pairs and prefix/binary pairs -/
+def searchTrees : List Expr :=
+  (BinOp.all.flatMap fun o1 => BinOp.all.flatMap fun o2 =>
+    [bin' o2 (bin' o1 (numAtom 1) (numAtom 2)) (numAtom 3), bin' o1 (numAtom 1) (bin' o2 (numAtom 2) (numAtom 3))]) ++
+  (PreOp.all.flatMap fun p => BinOp.all.flatMap fun o =>
+    [pre' p (bin' o (numAtom 1) (numAtom 2)), bin' o (pre' p (numAtom 1)) (numAtom 2),
+     bin' o (numAtom 1) (pre' p (numAtom 2))]) ++
+  (PreOp.all.flatMap fun p => PreOp.all.map fun q => pre' p (pre' q (numAtom 1)))
+
+/-- `<source-hex> <tree>` : the minimal print of the tree per the documented grammar and the
+    tree the real parser has to build from it -/
+def specPrints : List String :=
+  searchTrees.map fun e =>
+    let src := " ".intercalate ((Spec.pr e .top .none).map tkText)
+    hexEnc (strBytes src) ++ " " ++ showTree e
+
+def run (args : List String) : IO Unit :=
+  match args with
+  | ["specprints"] => do
+    for s in specPrints do
+      IO.println s
+  | _ => lineLoop runCase
 end Ecal.Drv.C03
